@@ -256,8 +256,10 @@ def _shard(args):
             ndiff += 1
             if diff_first is None:
                 diff_first = (seqs[i], t, out[i] if i < len(out) else None)
+    k = max(1, len(lines) // 3)
+    pairs = [([int(x) for x in lines[i].split()], [int(x) for x in out[i].split()]) for i in range(0, len(lines), k) if i < len(out)][:3]
     return {"n": len(lines), "events": sum(len(s) for s in seqs), "nmon": nmon, "mon_first": mon_first, "ndiff": ndiff,
-            "diff_first": diff_first, "sample": (seqs[len(seqs) // 2], traces[len(seqs) // 2])}
+            "diff_first": diff_first, "sample": (seqs[len(seqs) // 2], traces[len(seqs) // 2]), "pairs": pairs}
 
 
 def exhaustive(ck, depth, kind, which, tied, rnd, procs=16, split_depth=3):
@@ -294,6 +296,12 @@ def exhaustive(ck, depth, kind, which, tied, rnd, procs=16, split_depth=3):
         ck.cov["evaluations"] += r["n"]
         ck.hist("exhaustive_sequences_" + kind, r["n"])
         ck.hist("exhaustive_events_" + kind, r["events"])
+    pairs = [p for r in results for p in r.get("pairs", [])]
+    if pairs:      # a sample of the enumerated lines is re-evaluated inside Coq as well
+        nco, nbad = ck.coq_sample(MODEL + "hook" if hook else MODEL, "Model.BrokerClientHook" if hook else MODULE, pairs)
+        if nbad:
+            raise vlib.CheckAbort("extracted model and vm_compute disagree on %d of %d sampled enumeration lines" % (nbad, nco))
+        st["in_coq_sample"] += nco
     mon = [r["mon_first"] for r in results if r["mon_first"]]
     dif = [r["diff_first"] for r in results if r["diff_first"]]
     if hook:
@@ -333,7 +341,7 @@ def exhaustive(ck, depth, kind, which, tied, rnd, procs=16, split_depth=3):
 def _shard_or_short(a):
     (prefixes, depth, alpha, which, exe, hook), short = a
     if prefixes is None:      # the sequences shorter than the split depth, not extended
-        return _shard((short, 0, alpha, which, exe, hook)) if short else {"n": 0, "events": 0, "nmon": 0, "mon_first": None, "ndiff": 0, "diff_first": None, "sample": ([], "")}
+        return _shard((short, 0, alpha, which, exe, hook)) if short else {"n": 0, "events": 0, "nmon": 0, "mon_first": None, "ndiff": 0, "diff_first": None, "sample": ([], ""), "pairs": []}
     return _shard((prefixes, depth, alpha, which, exe, hook))
 
 
@@ -1149,3 +1157,37 @@ def replay_tree(rp):
             print("differs from the model:", mt)
             rc = 1
     return rc
+
+
+# ------------------------------------------------------------------ the sendString-raises path (brokerclient.py:370-373), outside the model
+def probe_send_raises():
+    """makeRequest with a payload that makes sendString raise (a str instead of bytes) on a live connection: the entry
+    must be dropped and the Deferred must fail with that exception, once; the id is free again; close() still works.
+    returns a list of complaints (empty = as expected)"""
+    im = D.Impl("const")
+    c = im.client
+    bad, seen = [], {"d1": [], "d2": [], "d3": []}
+    d1 = c.makeRequest(1, im.payload(0, 1), True)
+    d1.addBoth(lambda r: seen["d1"].append(type(getattr(r, "value", r)).__name__))
+    im.attempt().accept()
+    try:
+        d2 = c.makeRequest(2, "not bytes", True)
+    except Exception as e:
+        return ["makeRequest raised %r instead of returning a failed Deferred" % (e,)]
+    d2.addBoth(lambda r: seen["d2"].append(type(getattr(r, "value", r)).__name__))
+    if seen["d2"] != ["TypeError"]:
+        bad.append("Deferred of the unsendable request: outcomes %r, expected one TypeError" % seen["d2"])
+    try:
+        d3 = c.makeRequest(2, im.payload(2, 2), True)
+        d3.addBoth(lambda r: seen["d3"].append(type(getattr(r, "value", r)).__name__))
+    except Exception as e:
+        bad.append("id of the unsendable request still blocked: %r" % (e,))
+    try:
+        c.close()
+    except Exception as e:
+        bad.append("close() raised %r" % (e,))
+    if seen["d1"] != ["ClientError"] or (seen["d3"] and seen["d3"] != ["ClientError"]):
+        bad.append("after close(): outcomes %r" % seen)
+    if len(seen["d2"]) != 1:
+        bad.append("unsendable request completed %d times" % len(seen["d2"]))
+    return bad
